@@ -195,6 +195,10 @@ class ExcGen:
                  ('func', 4), ('gen', 4)]
         if self.star:
             kinds.append(('star', 30))
+        if 'finally' in self.stack:
+            # calling a nested function inside a finally clause crashes the compiler itself
+            # (Optimize.InlineDefNodeCalls on the deep-copied clause: 'set' object has no attribute 'cf_is_null') - C43
+            kinds = [kw for kw in kinds if kw[0] not in ('func', 'gen')]
         tot = sum(w for _, w in kinds)
         r = rng.random() * tot
         for k, w in kinds:
